@@ -161,14 +161,14 @@ CHECKS = {
     "C01": {"level": "model_checking", "parts": [enginex("C01")], "assumptions": A_ENGINE},
     "C02": {"level": "model_checking", "parts": [enginex("C02")], "assumptions": A_ENGINE},
     "C03": {"level": "model_checking", "parts": [enginex("C03")], "assumptions": A_ENGINE},
-    "C04": {"level": "fault_enumeration", "parts": [crashx(), worldx3(120, 600, prop="C04")], "assumptions": []},
+    "C04": {"level": "fault_enumeration", "parts": [crashx(), worldx3(120, 600, prop="C04"), enginex("C04", qb=300, tb=900)], "assumptions": []},
     "C05": {"level": "model_checking", "parts": [enginex("C05"), schedx("C05"), tsanx("C05"), kgx("C05", qb=120, tb=900, reuse=True)], "assumptions": A_ENGINE + A_SCHED},
     "C06": {"level": "model_checking", "parts": [enginex("C06"), schedx("C06"), tsanx("C06")], "assumptions": A_ENGINE + A_SCHED},
     "C07": {"level": "model_checking", "parts": [enginex("C07")], "assumptions": A_ENGINE},
     "C08": {"level": "model_checking", "parts": [worldx("C08", 200, 1500)], "assumptions": []},
     "C09": {"level": "model_checking", "parts": [worldx("C09", 200, 1500)], "assumptions": []},
     "C10": {"level": "model_checking", "parts": [worldx("C10", 150, 600), kgx(), kgx("C10", qb=120, tb=900, reuse=True)], "assumptions": []},
-    "C11": {"level": "exploration", "parts": [parsex("C11"), worldx2("C11", 100, 1000)], "assumptions": []},
+    "C11": {"level": "exploration", "parts": [parsex("C11"), worldx2("C11", 100, 1000), worldx3(120, 600, prop="C11")], "assumptions": []},
     "C12": {"level": "model_checking", "parts": [worldx2("C12", 150, 1100)], "assumptions": []},
     "C18": {"level": "model_checking", "parts": [worldx3(200, 1500)], "assumptions": []},
     "C20": {"level": "model_checking", "parts": [enginex("C20")], "assumptions": A_ENGINE},
